@@ -503,6 +503,32 @@ def chain_api(depth=3, reverse=True):
     return apigen.request([f])
 
 
+def subpackage_api(r):
+    """A service in a proto SUB-package (…v1.admin, file …/v1/admin/admin.proto) next to the root services; its request
+    names a root-package message and the sub-package's own enum. Returns (request, hints): hints are RPC subsets naming
+    methods of the root package, of the sub-package, and of both."""
+    api = apis.conventional(r, features={"custom"})
+    pkg = api.package
+    sub = File(f"{api.dir}/admin/admin.proto", pkg + ".admin", deps=list(apigen.STD_DEPS) + [api.main.proto.name])
+    res = next(m for m in api.main.proto.message_type if not m.name.endswith("Request") and not m.name.endswith("Response"))
+    preq = sub.message("PurgeRequest")
+    preq.field("name", 1, "string").field("victim", 2, f".{pkg}.{res.name}")
+    mode = sub.enum("PurgeMode", ["PURGE_MODE_UNSPECIFIED", "HARD", "SOFT"])
+    preq.field("mode", 3, ("enum", mode))
+    pres = sub.message("PurgeResponse")
+    pres.field("count", 1, "int32")
+    sub.message("AdminSpare").field("x", 1, "string")
+    s = sub.service("AdminOps", host=api.host)
+    s.rpc("Purge", preq.fqn, pres.fqn, http=("post", "/v1/{name=things/*}:purge"), body="*")
+    s.rpc("Audit", preq.fqn, pres.fqn, http=("post", "/v1/{name=things/*}:audit"), body="*")
+    api.files.insert(1, sub)
+    req = api.request()
+    mbs = methods_by_service(req)
+    root = next(f"{sv}.{ms[0]}" for sv, ms in mbs if not sv.startswith(pkg + ".admin."))
+    subm = f"{pkg}.admin.AdminOps.Purge"
+    return req, [[root, subm], [root], [subm]]
+
+
 def dep_package_api(r):
     """A target package that uses a message of its own dependency package (T2 only: no pb2 module exists for it)."""
     dep = File("acme/common/meta.proto", "acme.common", deps=["google/api/resource.proto"])
